@@ -10,6 +10,7 @@ use dasp_ring_buffer::Fixed;
 use dasp_signal::Signal;
 use petgraph::graph::{Graph, NodeIndex};
 use std::marker::PhantomData;
+use std::sync::atomic::{AtomicUsize, Ordering::SeqCst};
 
 const SENTINEL: f32 = -77.0;
 const LEN: usize = Buffer::LEN;
@@ -50,13 +51,13 @@ fn inner_count(wrapper: usize, outer: usize) -> usize {
     }
 }
 fn sum_fn(i: &[Input], o: &mut [Buffer]) {
-    Sum.process(i, o)
+    Counted(Sum).process(i, o)
 }
 fn sumbuf_fn(i: &[Input], o: &mut [Buffer]) {
-    SumBuffers.process(i, o)
+    Counted(SumBuffers).process(i, o)
 }
 fn pass_fn(i: &[Input], o: &mut [Buffer]) {
-    Pass.process(i, o)
+    Counted(Pass).process(i, o)
 }
 
 #[derive(Clone, Copy, Debug, PartialEq, Eq)]
@@ -65,7 +66,19 @@ enum Kind {
     SumBuffers,
     Pass,
 }
-const WRAPPERS: [&str; 10] = ["plain", "BoxedNode", "BoxedNodeSend", "Box<Box<T>>", "&mut T", "fn pointer", "Box<dyn Fn>", "Box<dyn FnMut>", "GraphNode", "GraphNode with different inner buffer counts"];
+const WRAPPERS: [&str; 11] = ["plain", "BoxedNode", "BoxedNodeSend", "Box<Box<T>>", "&mut T", "fn pointer", "Box<dyn Fn>", "Box<dyn FnMut>", "GraphNode", "GraphNode with different inner buffer counts", "GraphNode with one more declared input port than connected inputs"];
+
+/// Every wrapped stock node counts its invocations: a wrapper must run the node it wraps exactly once
+/// per process call, whatever the number of inputs or output buffers (a node without output buffers
+/// may still act through its inputs).
+static INVOKED: AtomicUsize = AtomicUsize::new(0);
+struct Counted<T>(T);
+impl<T: Node> Node for Counted<T> {
+    fn process(&mut self, inputs: &[Input], output: &mut [Buffer]) {
+        INVOKED.fetch_add(1, SeqCst);
+        self.0.process(inputs, output)
+    }
+}
 
 fn sentinel_bufs(n: usize) -> Vec<Buffer> {
     vec![Buffer::from([SENTINEL; LEN]); n]
@@ -89,23 +102,27 @@ fn expect_stateless(kind: Kind, ins: &[Vec<Vec<f32>>], prev_out: &[Vec<f32>]) ->
 /// One stateless-node configuration under one wrapper, three calls.
 fn stateless_case(kind: Kind, wrapper: usize, in_bufs: &[usize], n_out: usize) -> Option<Bad> {
     let tag = format!("{kind:?} wrapped as {} with inputs {in_bufs:?} buffers and {n_out} output buffers", WRAPPERS[wrapper]);
+    // Pass with two inputs: which one it forwards is not fixed by the property (see below)
+    if kind == Kind::Pass && wrapper == 10 && !in_bufs.is_empty() {
+        return None;
+    }
     // the &mut wrapper borrows these
-    let (mut s1, mut s2, mut s3) = (Sum, SumBuffers, Pass);
+    let (mut s1, mut s2, mut s3) = (Counted(Sum), Counted(SumBuffers), Counted(Pass));
     let mut g: G = Graph::with_capacity(12, 12);
     let srcs: Vec<NodeIndex> = in_bufs.iter().enumerate().map(|(k, &nb)| g.add_node(NodeData::new(Box::new(Src { k, calls: 0 }) as DynNode, sentinel_bufs(nb)))).collect();
     let node: DynNode = match (wrapper, kind) {
-        (0, Kind::Sum) => Box::new(Sum),
-        (0, Kind::SumBuffers) => Box::new(SumBuffers),
-        (0, Kind::Pass) => Box::new(Pass),
-        (1, Kind::Sum) => Box::new(BoxedNode::new(Sum)),
-        (1, Kind::SumBuffers) => Box::new(BoxedNode::new(SumBuffers)),
-        (1, Kind::Pass) => Box::new(BoxedNode::new(Pass)),
-        (2, Kind::Sum) => Box::new(BoxedNodeSend::new(Sum)),
-        (2, Kind::SumBuffers) => Box::new(BoxedNodeSend::new(SumBuffers)),
-        (2, Kind::Pass) => Box::new(BoxedNodeSend::new(Pass)),
-        (3, Kind::Sum) => Box::new(Box::new(Sum)),
-        (3, Kind::SumBuffers) => Box::new(Box::new(SumBuffers)),
-        (3, Kind::Pass) => Box::new(Box::new(Pass)),
+        (0, Kind::Sum) => Box::new(Counted(Sum)),
+        (0, Kind::SumBuffers) => Box::new(Counted(SumBuffers)),
+        (0, Kind::Pass) => Box::new(Counted(Pass)),
+        (1, Kind::Sum) => Box::new(BoxedNode::new(Counted(Sum))),
+        (1, Kind::SumBuffers) => Box::new(BoxedNode::new(Counted(SumBuffers))),
+        (1, Kind::Pass) => Box::new(BoxedNode::new(Counted(Pass))),
+        (2, Kind::Sum) => Box::new(BoxedNodeSend::new(Counted(Sum))),
+        (2, Kind::SumBuffers) => Box::new(BoxedNodeSend::new(Counted(SumBuffers))),
+        (2, Kind::Pass) => Box::new(BoxedNodeSend::new(Counted(Pass))),
+        (3, Kind::Sum) => Box::new(Box::new(Counted(Sum))),
+        (3, Kind::SumBuffers) => Box::new(Box::new(Counted(SumBuffers))),
+        (3, Kind::Pass) => Box::new(Box::new(Counted(Pass))),
         (4, Kind::Sum) => Box::new(&mut s1),
         (4, Kind::SumBuffers) => Box::new(&mut s2),
         (4, Kind::Pass) => Box::new(&mut s3),
@@ -114,9 +131,9 @@ fn stateless_case(kind: Kind, wrapper: usize, in_bufs: &[usize], n_out: usize) -
         (5, Kind::Pass) => Box::new(pass_fn as fn(&[Input], &mut [Buffer])),
         (6, k) => {
             let f: Box<dyn Fn(&[Input], &mut [Buffer])> = match k {
-                Kind::Sum => Box::new(|i, o| Sum.process(i, o)),
-                Kind::SumBuffers => Box::new(|i, o| SumBuffers.process(i, o)),
-                Kind::Pass => Box::new(|i, o| Pass.process(i, o)),
+                Kind::Sum => Box::new(|i, o| Counted(Sum).process(i, o)),
+                Kind::SumBuffers => Box::new(|i, o| Counted(SumBuffers).process(i, o)),
+                Kind::Pass => Box::new(|i, o| Counted(Pass).process(i, o)),
             };
             Box::new(f)
         }
@@ -125,15 +142,15 @@ fn stateless_case(kind: Kind, wrapper: usize, in_bufs: &[usize], n_out: usize) -
             let f: Box<dyn FnMut(&[Input], &mut [Buffer])> = match k {
                 Kind::Sum => Box::new(move |i, o| {
                     calls += 1;
-                    Sum.process(i, o)
+                    Counted(Sum).process(i, o)
                 }),
                 Kind::SumBuffers => Box::new(move |i, o| {
                     calls += 1;
-                    SumBuffers.process(i, o)
+                    Counted(SumBuffers).process(i, o)
                 }),
                 Kind::Pass => Box::new(move |i, o| {
                     calls += 1;
-                    Pass.process(i, o)
+                    Counted(Pass).process(i, o)
                 }),
             };
             Box::new(f)
@@ -143,11 +160,18 @@ fn stateless_case(kind: Kind, wrapper: usize, in_bufs: &[usize], n_out: usize) -
             let mut inner: Graph<NodeData<DynNode<'static>>, ()> = Graph::with_capacity(8, 8);
             let ins: Vec<NodeIndex> = in_bufs.iter().map(|&nb| inner.add_node(NodeData::new(Box::new(noop as fn(&[Input], &mut [Buffer])) as DynNode, sentinel_bufs(inner_count(wrapper, nb))))).collect();
             let t: DynNode<'static> = match k {
-                Kind::Sum => Box::new(Sum),
-                Kind::SumBuffers => Box::new(SumBuffers),
-                Kind::Pass => Box::new(Pass),
+                Kind::Sum => Box::new(Counted(Sum)),
+                Kind::SumBuffers => Box::new(Counted(SumBuffers)),
+                Kind::Pass => Box::new(Counted(Pass)),
             };
             let out = inner.add_node(NodeData::new(t, sentinel_bufs(inner_count(wrapper, n_out))));
+            // wrapper 10: a further declared input port that the outer graph never feeds; it keeps the
+            // buffers it was created with and the nested graph must still be processed
+            let extra = if wrapper == 10 { Some(inner.add_node(NodeData::new(Box::new(noop as fn(&[Input], &mut [Buffer])) as DynNode, sentinel_bufs(1)))) } else { None };
+            let mut ins = ins;
+            if let Some(e) = extra {
+                ins.push(e);
+            }
             // petgraph yields incoming neighbours newest-edge-first; add edges in reverse so the order matches the flat graph
             for &i in ins.iter() {
                 inner.add_edge(i, out, ());
@@ -168,8 +192,13 @@ fn stateless_case(kind: Kind, wrapper: usize, in_bufs: &[usize], n_out: usize) -
     let mut prev: Vec<Vec<f32>> = vec![vec![SENTINEL; LEN]; n_out];
     let mut prev_inner: Vec<Vec<f32>> = Vec::new();
     for call in 0..3 {
+        let before = INVOKED.load(SeqCst);
         if let Err(e) = catch(|| p.process(&mut g, t)) {
             return Some(("node.panic".into(), format!("{tag}: call {call} panicked: {e}")));
+        }
+        let ran = INVOKED.load(SeqCst) - before;
+        if ran != 1 {
+            return Some(("node.invoked".into(), format!("{tag}: call {call}: the wrapped node ran {ran} times, expected exactly once")));
         }
         let ins: Vec<Vec<Vec<f32>>> = in_bufs.iter().enumerate().map(|(k, &nb)| (0..nb).map(|b| (0..LEN).map(|tt| src_val(k, b, tt, call)).collect()).collect()).collect();
         let exp = if wrapper == 9 {
@@ -188,6 +217,10 @@ fn stateless_case(kind: Kind, wrapper: usize, in_bufs: &[usize], n_out: usize) -
             let inner_out = expect_stateless(kind, &inner_ins, &prev_inner);
             prev_inner = inner_out.clone();
             (0..n_out).map(|ch| if ch < n_in_out { inner_out[ch].clone() } else { prev[ch].clone() }).collect()
+        } else if wrapper == 10 {
+            let mut with_extra = ins.clone();
+            with_extra.push(vec![vec![SENTINEL; LEN]]);
+            expect_stateless(kind, &with_extra, &prev)
         } else {
             expect_stateless(kind, &ins, &prev)
         };
@@ -325,7 +358,7 @@ fn main() {
         let _guard_scope = guard::scoped(&v.to_string());
         ctx.finish_replay(catch(|| replay(&v)).unwrap_or_else(|p| Some(format!("panic: {p}"))));
     }
-    ctx.rule("Sum / SumBuffers: input count 0..=3 x buffers per input 0..=3 (every combination) x output buffers 0..=3 x 10 wrapper types (plain, BoxedNode, BoxedNodeSend, Box<Box<T>>, &mut T, fn pointer, Box<dyn Fn>, Box<dyn FnMut>, nested GraphNode, nested GraphNode whose inner input/output nodes have different buffer counts) x 3 consecutive calls; Pass: 0 or 1 input likewise; Delay: per-channel ring lengths over {1,2,63,64,65,130}^(1..=2 channels) x input buffers 0..=3 x output buffers 0..=3 x 4 wrappers x 4 calls with coded initial ring contents; signal node: Box<dyn Signal<Frame=[f32;2]>> over an instrumented source, output buffers 0..=3, 3 calls, 64 pulls per call; sources write position-coded dyadic values (sums exact in f32), outputs start as a sentinel; oracle = per-node reference function; scale probes: Sum / SumBuffers with 4..=8, 16, 33, 100, 255, 256 and 257 inputs (patterned buffer counts), plain and nested-graph wrappers; soak probes: 300 consecutive calls of delay nodes (4 ring-length sets) and of the signal node, 2100 calls of delay nodes with rings of 65535 and 65536 / 65537 samples (the write position wraps twice); distinct by configuration");
+    ctx.rule("Sum / SumBuffers: input count 0..=3 x buffers per input 0..=3 (every combination) x output buffers 0..=3 x 11 wrapper types (plain, BoxedNode, BoxedNodeSend, Box<Box<T>>, &mut T, fn pointer, Box<dyn Fn>, Box<dyn FnMut>, nested GraphNode, nested GraphNode whose inner input/output nodes have different buffer counts, nested GraphNode with one more declared input port than connected inputs) x 3 consecutive calls, the wrapped node counting its invocations (exactly one per call, also with zero output buffers); Pass: 0 or 1 input likewise; Delay: per-channel ring lengths over {1,2,63,64,65,130}^(1..=2 channels) x input buffers 0..=3 x output buffers 0..=3 x 4 wrappers x 4 calls with coded initial ring contents; signal node: Box<dyn Signal<Frame=[f32;2]>> over an instrumented source, output buffers 0..=3, 3 calls, 64 pulls per call; sources write position-coded dyadic values (sums exact in f32), outputs start as a sentinel; oracle = per-node reference function; scale probes: Sum / SumBuffers with 4..=8, 16, 33, 100, 255, 256 and 257 inputs (patterned buffer counts), plain and nested-graph wrappers; soak probes: 300 consecutive calls of delay nodes (4 ring-length sets) and of the signal node, 2100 calls of delay nodes with rings of 65535 and 65536 / 65537 samples (the write position wraps twice); distinct by configuration");
     let mut evals = 0u64;
     for kind in [Kind::Sum, Kind::SumBuffers, Kind::Pass] {
         for n_in in 0..=(if kind == Kind::Pass { 1 } else { 3 }) {
